@@ -91,3 +91,24 @@ Definition git_error_style (r : result tstyle git_error) : option (list N) :=
   | Ok _ => None
   | Err (GEExtraColor s _) | Err (GEUnknownWord s _) => Some s
   end.
+
+(* ---- impl std::fmt::Display for Error -----------------------------------------------
+   The message as code points (the literal pieces are ASCII).  [git_fmt_write] is the vocabulary's
+   `Formatter::write_str` on a formatter over an infallible sink: the text written so far, extended. *)
+From Coq Require Import Strings.String Strings.Ascii.
+
+Definition git_fmt_write (f s : list N) : list N := f ++ s.
+
+Definition git_lit (s : string) : list N := map N_of_ascii (list_ascii_of_string s).
+
+(* "Error parsing style \"{style}\": extra color \"{word}\""  /  "Error parsing style \"{style}\": unknown word: \"{word}\"" *)
+Definition git_error_message (e : git_error) : list N :=
+  match e with
+  | GEExtraColor style word =>
+      git_lit "Error parsing style """ ++ style ++ git_lit """: extra color """ ++ word ++ git_lit """"
+  | GEUnknownWord style word =>
+      git_lit "Error parsing style """ ++ style ++ git_lit """: unknown word: """ ++ word ++ git_lit """"
+  end.
+
+(* e.to_string() *)
+Definition git_error_to_string (e : git_error) : list N := git_error_message e.
